@@ -4,9 +4,9 @@ CONSTANTS
   Hist = FALSE
   ClearBeforeCopy = FALSE
   CopyThroughSet = FALSE
-  AliasedFirstAssignment = TRUE
-  Churn = FALSE
-  StaleReportedCache = FALSE
+  AliasedFirstAssignment = FALSE
+  Churn = TRUE
+  StaleReportedCache = TRUE
   UnhookedExtend = FALSE
 SPECIFICATION Spec
 INVARIANT KeepsData
